@@ -6,7 +6,7 @@ PROPERTY = "C13"
 READY = True
 STATEFUL = True
 THEOREMS = ["C13.parse_print", "C13.int_of_str", "C13.same_rendering_setter", "C13.same_rendering_ctor",
-            "C13.empty_noop", "C13.reachable_invariants"]
+            "C13.format_after_print", "C13.empty_noop", "C13.fieldless", "C13.reachable_invariants"]
 
 
 def translate(repo):
@@ -50,6 +50,11 @@ class _Live:
                 if op == "setlast" and self.last is None:
                     return "err NoTable"
                 self.table.fmt = dec_str(args[0]) if op == "set" else self.last
+                return "ok"
+            if op == "ctorobj":
+                t = PPTable(self.records, fmt_obj=self.table.fmt, header=self.kw.get("header"),
+                            footer=self.kw.get("footer"))
+                self.table = t
                 return "ok"
             if op in ("ctor", "ctorlast"):
                 if op == "ctorlast" and self.last is None:
@@ -176,6 +181,17 @@ def oracle(case, replies):
                 return "ctor-differs: PPTable(records, fmt=%r) prints differently" % s
             if str(t2.fmt) != want_fmt:
                 return "ctor-format: PPTable(records, fmt=%r), printed, has format %r, not %r" % (s, str(t2.fmt), want_fmt)
+        elif op == "ctorobj" and rep == "ok":
+            # the format handed over as an object reproduces the table as well
+            before = _replay(lines[:i])
+            after = _replay(lines[:i + 1])
+            if before.table is None or isinstance(_render(before.table), str):
+                continue
+            if _render(before.table) != _render(after.table):
+                return "fmt_obj-differs: PPTable(records, fmt_obj=table.fmt) prints differently"
+            if str(before.table.fmt) != str(after.table.fmt):
+                return "fmt_obj-format: PPTable(records, fmt_obj=table.fmt), printed, reads %r, not %r" % (
+                    str(after.table.fmt), str(before.table.fmt))
         elif op == "set" and dec_str(line.split()[1]) in ("", ";", ";;"):
             if rep != "ok":
                 if rep == "err NoTable":
@@ -213,8 +229,10 @@ def gen_history(rng, desc):
             ops.append("print")
         elif k < 0.57:
             ops += ["str", "setlast"]
-        elif k < 0.70:
+        elif k < 0.66:
             ops += ["str", "ctorlast"]
+        elif k < 0.70:
+            ops.append("ctorobj")
         elif k < 0.80:
             ops.append("set " + enc_str(rng.choice(["", ";", ";;"])))
         elif k < 0.93:
@@ -232,7 +250,7 @@ def gen_history(rng, desc):
             ops.append("set " + enc_str(rng.choice([
                 "nosuch", names[0] + ":x", names[0] + ":1:2", ";1", ";;;", names[0] + "/bad", names[0] + ":2-5(2",
                 names[0] + ":-1", "*;*", names[0] + ":2-5(2)", names[0] + ":3(3)", names[0] + " : 2 - 5 ( 2 ) "])))
-    ops += ["str", "print", "str", rng.choice(["setlast", "ctorlast"]), "print", "str"]
+    ops += ["str", "print", "str", rng.choice(["setlast", "ctorlast", "setlast", "ctorlast", "ctorobj"]), "print", "str"]
     return ops
 
 
@@ -320,12 +338,12 @@ def tags(case, replies):
             if ";" in s:
                 yield "str:with-limits"
             yield "str:printed" if printed else "str:fresh"
-        if op in ("setlast", "ctorlast", "set", "ctor", "new") and rep == "ok":
+        if op in ("setlast", "ctorlast", "set", "ctor", "new", "ctorobj") and rep == "ok":
             printed = False
 
 
 RULE = ("histories over C12's tables (field names the serialised form can express): new, then 2-8 of str / print / "
-        "str+setlast / str+ctorlast / set ''|';'|';;' / set <another well-formed format> / set <malformed>, always "
+        "str+setlast / str+ctorlast / ctorobj (fmt_obj=table.fmt) / set ''|';'|';;' / set <another well-formed format> / set <malformed>, always "
         "ending with str, print, str, setlast|ctorlast, print, str; plus `parse <fmt>` lines (fuzzed and edited format "
         "strings; the parser's internal record is compared as a diagnostic). non-trivial = at least one later step answered "
         "with data; distinct by protocol text")
@@ -340,10 +358,12 @@ LEVEL_TEXT = ("Kernel-checked on the model, for all tables with explicit express
               "defect); applying it through the setter or through the constructor yields a table that prints exactly "
               "the same lines, with the same fields and columns (same_rendering_setter, same_rendering_ctor - the "
               "latter for natural-number limits); '', ';' and ';;' leave fields, columns and limits alone and the "
-              "rendering unchanged (empty_noop). Model = code rests on the differential run of histories (format "
+              "rendering unchanged (empty_noop); after the next printing the fed-back table reports exactly the same format "
+              "string, negotiated widths included (format_after_print); a field-less table is the table with fields "
+              "col_1.. / the dummy field, so all of this applies to it (fieldless). Model = code rests on the differential run of histories (format "
               "string and all rendered lines compared at every step).")
 LEVEL_NOTE = ("Trusted: Lean kernel, the translator (constants shared with C12), adapter/wire format in harness/c12.py and "
-              "harness/c13.py, sampled correspondence. Not covered by the theorems (tie and oracle only): tables built "
-              "without `fields` (col_N / dummy field), the format string read after the next printing, negative limits "
-              "(for which the constructor route is in fact not faithful - reported as an observation).")
+              "harness/c13.py, sampled correspondence. Not covered by the theorems (tie and oracle only): the constructor "
+              "route under negative limits (for which it is in fact not faithful - reported as an observation), the "
+              "fmt_obj= route inside histories (ctorobj: C12.fmt_obj_same covers the single step), enhanced formats.")
 TECHNIQUE = "Lean 4 theorems (string round trip on List Char, reachability invariants) + differential run of histories"
